@@ -222,7 +222,8 @@ API = {
     "PyObject_GC_Track": F("void"),
     "PyObject_GC_Del": F("void"),
     "PyObject_Free": F("void"),
-    "Py_EnterRecursiveCall": F("int", "neg"),
+    # 0 on success; non-zero with RecursionError set
+    "Py_EnterRecursiveCall": F("int", "nonzero"),
     "Py_LeaveRecursiveCall": F("void"),
     "PyGILState_Ensure": F("int"),
     "PyGILState_Release": F("void"),
